@@ -108,9 +108,15 @@ def build_program(case):
         L += ["function cb", '\targ "0"', '\tstore "x"', '\tload "x"',
               "\tcall_lib %s %s" % (hrb_quote(lib_path("a")), sym), "\tret", "end"]
     pre = "progs/" if case.get("start") == "parent" else ((ABS_WORLD[0] + "/") if ABS_WORLD[0] else "")
+    if case.get("fallthrough"):
+        # (as in the repository's README example) a function that ends without `ret` and leaves a value on its operand stack;
+        # it runs before the foreign calls, which must still see exactly the operands pushed for them
+        L += ["function ft", '\tmake_int "4242"', '\tmake_str "left behind"', "end"]
     depth = case.get("depth", 0)
     # the calls run `depth` frames below the module: a chain of functions d1 .. d<depth>, the last one calling `body`
     L.append("function body" if depth else "function __module__")
+    if case.get("fallthrough"):
+        L += ['\tmake_function "%smain.mmm#ft"' % pre, '\tstore_fast "#1"', '\tload_fast "#1"', "\tcall", "\tvoid"]
     for i, c in enumerate(case["calls"]):
         L += ['\tmake_str "before %d"' % i, '\tprintn "*"', "\tvoid"]
         exp.append("before %d" % i)
@@ -129,8 +135,9 @@ def build_program(case):
             fail = {"at": i, "needle": "libprobe_a"}
         elif fault == "dlopen_null":
             fail = {"at": i, "needle": os.path.basename(lib_path(c["lib"]))}
-        elif c["sym"] == "probe_absent":
-            fail = {"at": i, "needle": "probe_absent"}
+        elif c["sym"] in ("probe_absent", "probe_under"):
+            # (probe_under: absent, although the library exports `_probe_under`)
+            fail = {"at": i, "needle": c["sym"]}
         elif c["sym"] == "long_absent64":
             fail = {"at": i, "needle": real_sym("long_absent64")}
         elif fault == "dlsym_null":
@@ -314,7 +321,7 @@ def gen_cases(tier, seed):
         calls = []
         for _ in range(rng.range(1, 4)):
             args = [(k, rng.below(len(VALUES[k]))) for k in [rng.choice(KINDS) for _ in range(rng.range(0, 6))]]
-            sym = rng.weighted([("probe_echo", 5), ("probe_none", 2), ("probe_first", 2), ("probe_last", 2), ("probe_raise", 1), ("probe_absent", 1), ("probe_raise_multi", 1), ("probe_raise_blank", 1),
+            sym = rng.weighted([("probe_echo", 5), ("probe_none", 2), ("probe_first", 2), ("probe_last", 2), ("probe_raise", 1), ("probe_absent", 1), ("probe_under", 1), ("probe_raise_multi", 1), ("probe_raise_blank", 1),
                                 ("long63", 1), ("long70", 1), ("long71", 1), ("long_absent64", 1)])
             lib = rng.weighted([("a", 5), ("b", 5), ("bare", 2), ("lazy", 2), ("missing", 1), ("bs", 2), ("missing_bs", 1), ("versioned", 2), ("missing_dll", 1), ("missing_noext", 1)])
             if sym in ("probe_first", "probe_last") and not args and rng.chance(2, 3):
@@ -330,6 +337,8 @@ def gen_cases(tier, seed):
         elif rng.chance(1, 8):
             # the command is started in a directory that has been removed since; bytecode and libraries are named absolutely
             case["start"] = "gone"
+        if rng.chance(1, 6):
+            case["fallthrough"] = True
         if rng.chance(1, 6):
             case["vars"] = {"RUST_BACKTRACE": "1"}
         if rng.chance(1, 3):
@@ -480,7 +489,7 @@ def shrink(case):
         c = copy.deepcopy(case)
         c["gc"] = None
         yield c
-    for key in ("start", "vars"):
+    for key in ("start", "vars", "fallthrough"):
         if case.get(key):
             c = copy.deepcopy(case)
             c[key] = None
